@@ -108,6 +108,18 @@ impl Oracle for AmpOracle {
             }
         }
         self.hd_seen = w.handled.len();
+        // a path change without a datagram is the fallback to the previous path after a failed
+        // validation (timer-driven): that path's counters live on, but the next packet from the
+        // abandoned address starts a new attempt
+        for c in &w.conns {
+            if c.side == Side::Server && !c.drained_handled {
+                let r = c.conn.remote_address();
+                if self.last_remote.get(&c.inc).is_some_and(|l| *l != r) {
+                    self.last_remote.insert(c.inc, r);
+                    w.probes.hit("server_fell_back_by_timer");
+                }
+            }
+        }
         // validation events from the acceptance ledger
         {
             let tap = w.tap.lock().unwrap();
